@@ -41,15 +41,24 @@ pub fn block_timeout<T>(
         match pinned_fut.as_mut().poll(&mut cx) {
             Poll::Ready(t) => return Ok(t),
             Poll::Pending => {
-                if let Some(timeout) =
-                    duration.checked_sub(std::time::Instant::now().duration_since(start_instant))
+                let woken = match duration
+                    .checked_sub(std::time::Instant::now().duration_since(start_instant))
                 {
-                    match receiver.recv_timeout(timeout) {
-                        Ok(_) => (),
-                        Err(_) => return Err(DdsError::Timeout),
-                    }
-                } else {
+                    Some(timeout) => receiver.recv_timeout(timeout).is_ok(),
+                    // The duration is over: do not block, but do not ignore a wake
+                    // that is already waiting in the channel either.
+                    None => receiver.try_recv().is_ok(),
+                };
+                if !woken {
                     return Err(DdsError::Timeout);
+                }
+                if std::time::Instant::now().duration_since(start_instant) > duration {
+                    // Woken, but the duration is over: give the future one last
+                    // poll (it may have completed in time) and then give up.
+                    return match pinned_fut.as_mut().poll(&mut cx) {
+                        Poll::Ready(t) => Ok(t),
+                        Poll::Pending => Err(DdsError::Timeout),
+                    };
                 }
             }
         }
